@@ -16,4 +16,4 @@ ASSUMPTIONS = ["argparse, ChainMap and ConfigParser semantics (trusted stdlib)"]
 
 
 def run(project, rep):
-    G.g_rules(project, rep)
+    rep.run(G.g_rules, project, rep)
